@@ -54,3 +54,32 @@ func init() {
 		Blocks:   tierMap(300, 600),
 	})
 }
+
+func disputeProfile(name string) Profile {
+	return Profile{Name: name, MinTx: 3, MaxTx: 8, Hostile: 0.12, VoteFault: 0.0, GapBig: 0.10, Gov: false,
+		W: map[string]float64{"proposeDispute": 7, "addFee": 5, "vote": 14, "withdrawFeeRefund": 5, "claimReward": 5, "addEvidence": 1.5, "tip": 8, "submit": 18,
+			"delegate": 5, "undelegate": 3, "redelegate": 2, "selectReporter": 4, "createReporter": 4, "unjailReporter": 3, "privileged": 0.1, "registerSpec": 0.1,
+			"requestAttest": 0.2, "withdrawTokens": 0.3, "claimDeposits": 0.1, "createValidator": 0.3}}
+}
+
+func disputeFinish(c *Chain, g *Gen, mons []Monitor) {
+	for _, m := range mons {
+		if dm, ok := m.(*DisputeMonitor); ok {
+			settlementPhase(c, g, dm)
+		}
+	}
+}
+
+func init() {
+	for _, id := range []string{"C11", "C12", "C13"} {
+		id := id
+		Register(&PropDef{
+			ID:       id,
+			Profile:  func(tier string, r *Rng) Profile { return disputeProfile("dispute-" + id) },
+			Monitors: func(st *Stats) []Monitor { return []Monitor{NewDisputeMonitor(st)} },
+			Cases:    tierMap(24, 128),
+			Blocks:   tierMap(300, 600),
+			Finish:   disputeFinish,
+		})
+	}
+}
